@@ -75,6 +75,8 @@ def check(rep, model, tier):
     else:
         rep.violation('PAIRING', 'override rejected', f'{csf.path}:{csf.node.lineno} compute_shape_features', expected='ValueError for find_extrema_kwargs["first_extrema"]', found=T.brief(r, 80) if r else 'no raise')
     opt_excl(rep, model)
+    opt_forward(rep, model)
+    window_tiling(rep, model)
     common.roview(rep, model, PIPELINE)
     call_bind(rep, model)
     # shared clauses
@@ -101,11 +103,120 @@ def check(rep, model, tier):
                           found='; '.join(f'{c}' + (f' [via {v}]' if v else '') for _, c, v in hits[:3]) + ': a later call with the same dictionary runs with different options')
         else:
             rep.ok('OPTIONS-STABLE', name, f'{fn.path}:{fn.node.lineno} {name}', found='no write through an option dictionary')
-    rep.rules = {k: v for k, v in rep.rules.items() if k in ('ROW-OFFSETS', 'PAIRING', 'OPT-EXCL', 'EFF-ROVIEW', 'CALL-BIND', 'MID-LOCAL', 'BOUNDARY', 'CROSSING')}
+    rep.rules = {k: v for k, v in rep.rules.items() if k in ('ROW-OFFSETS', 'PAIRING', 'OPT-EXCL', 'OPT-FORWARD', 'WINDOW-TILING', 'EFF-ROVIEW', 'CALL-BIND', 'MID-LOCAL', 'BOUNDARY', 'CROSSING')}
     rep.rule('OPTIONS-STABLE', 'compute_features / compute_shape_features never write to the find_extrema_kwargs dictionary they are given (the one carrying boundary), so the '
                                'requested boundary holds on every call that reuses it (shared with C15)')
     rep.floors = {k: v for k, v in rep.floors.items() if k in ('call sites bound',)}
     rep.floor('rule instances', len(rep.instances), 40)
+
+
+def window_tiling(rep, model):
+    """the half-open search windows of adjacent half-waves share their boundary: [rise+a, decay+b) for a peak, [decay+b, rise+a) for a trough"""
+    rep.rule('WINDOW-TILING', 'find_extrema searches a peak in raw[rise + a : decay + b] and the following trough in raw[decay + b : rise + a] with the same offsets a, b on the same '
+                              'crossing arrays: the windows tile the signal, so no sample can be reported both as a peak and as the neighbouring trough (strict alternation)')
+    f = model.find('find_extrema')
+    site = f'{f.path}:{f.node.lineno} find_extrema'
+
+    def bound_of(t):
+        # crossing[k] + c  ->  (crossing atom, c)
+        t = T.anonymise_lv(t)
+        off = 0
+        if t[0] == 'lin':
+            off = t[1]
+            parts = [x for x, c in t[2]]
+            if len(parts) != 1 or t[2][0][1] != 1:
+                return None
+            t = parts[0]
+        if t[0] == 'idx' and t[1] in (c02.RX, c02.DX):
+            return t[1][1], off
+        # the scanned "next crossing after the window start": an element of a suffix of exactly one crossing array
+        def source(x):
+            if x in (c02.RX, c02.DX):
+                return x[1]
+            if x[0] == 'nd':
+                return source(x[1])
+            if x[0] == 'carried' and len(x) > 4:
+                return source(x[4])
+            if x[0] == 'loopout':
+                return source(x[2])
+            if x[0] in ('slice', 'arr'):
+                return source(x[1])
+            if x[0] == 'gamma':
+                a_, b_ = source(x[2]), source(x[3])
+                return a_ if a_ == b_ else None
+            return None
+        if t[0] == 'idx':
+            src = source(t[1])
+            if src is not None:
+                return src, off
+        return None
+    for pad in (T.TRUE, T.FALSE):
+        impl, ctx = E.run(model, f.qual, c02.base(NONE, pad, NONE), overrides=c02.OV)
+        impl = T.strip_nd(impl) if impl is not None else None
+        inst = f'pad={pad[1]}'
+        if impl is None or impl[0] != 'tuple' or len(impl[1]) != 2:
+            rep.violation('WINDOW-TILING', inst, site, expected='a (peaks, troughs) pair', found=T.brief(impl, 120) if impl else 'no value')
+            continue
+        win = {}
+        for comp, fn, name in ((impl[1][0], 'argmax', 'peak'), (impl[1][1], 'argmin', 'trough')):
+            ws = {(bound_of(x[2][0][2]), bound_of(x[2][0][3])) for x in T.walk(comp) if x[0] == 'call' and x[1] == fn and x[2] and x[2][0][0] == 'slice'}
+            win[name] = ws
+        recognised = len(win['peak']) == 1 and len(win['trough']) == 1 and None not in next(iter(win['peak'])) + next(iter(win['trough']))
+        if not recognised:
+            # a search written differently (no argmax / argmin over a slice bounded by crossing elements): this structural query has nothing to say;
+            # conformance of the search as a whole is C02's FE-DEF
+            rep.ok('WINDOW-TILING', inst, site, found='search windows are not in the slice-between-crossings form: not decided here (see C02 FE-DEF)', nontrivial=False)
+            continue
+        (plo, phi), (tlo, thi) = next(iter(win['peak'])), next(iter(win['trough']))
+        ok = plo[0] == 'RX' and phi[0] == 'DX' and tlo == phi and thi == plo
+        if ok:
+            rep.ok('WINDOW-TILING', inst, site, found=f'peak window [{plo[0]}+{plo[1]}, {phi[0]}+{phi[1]}), trough window [{tlo[0]}+{tlo[1]}, {thi[0]}+{thi[1]})')
+        else:
+            rep.violation('WINDOW-TILING', inst, site, expected='peak window [rise+a, decay+b), trough window [decay+b, rise+a)',
+                          found={k: sorted(map(str, v)) for k, v in win.items()})
+
+
+def opt_forward(rep, model):
+    """the filter-length options the user configured reach find_extrema unchanged, through the functional and the object front end"""
+    rep.rule('OPT-FORWARD', 'compute_features and Bycycle(...).fit hand find_extrema the filter_kwargs the user configured: a given n_seconds (or n_cycles) arrives alone and '
+                            'unchanged - no front end adds the other length key (the pair makes the filter design raise for every signal)')
+    nc, ns = ('atom', 'user_n_cycles', 'num'), ('atom', 'user_n_seconds', 'num')
+    scen = {'n_seconds': ('dict', (('filter_kwargs', ('dict', (('n_seconds', ns),))),)),
+            'n_cycles': ('dict', (('filter_kwargs', ('dict', (('n_cycles', nc),))),)),
+            'boundary only': ('dict', (('boundary', ('atom', 'user_boundary', 'int')),)),
+            'None': NONE}
+    BY = 'bycycle.objs.fit.Bycycle'
+    for front in ('compute_features', 'Bycycle.fit'):
+        for label, fek in scen.items():
+            ctx = SE.Ctx(model, overrides=E.CYCLEPOINT_ABS, kinds={'burst_kwargs': 'dict'})
+            if front == 'compute_features':
+                f = model.find('compute_features')
+                E.run(model, f.qual, {'find_extrema_kwargs': fek, 'burst_method': C('cycles'), 'center_extrema': C('peak')}, ctx=ctx)
+            else:
+                f = model.funcs[f'{BY}.fit']
+                o = E.make_object(ctx, model, BY, {'find_extrema_kwargs': fek, 'burst_method': C('cycles'), 'center_extrema': C('peak')})
+                ctx.trace.clear()
+                E.run(model, f.qual, {'self': o}, ctx=ctx)
+            site = f'{f.path}:{f.node.lineno} {front}'
+            evs = [e for e in E.calls_to(ctx, 'find_extrema') if e['kind'] == 'pkgcall']
+            inst = f'{front}:find_extrema_kwargs={label}'
+            if len(evs) != 1:
+                rep.violation('OPT-FORWARD', inst, site, expected='one find_extrema call', found=f'{len(evs)} calls')
+                continue
+            fk = evs[0]['bound'].get('filter_kwargs', NONE)
+            keys = dict(fk[1]) if fk[0] == 'dict' else {} if fk == NONE else None
+            if keys is None:
+                rep.violation('OPT-FORWARD', inst, evs[0]['where'] or site, expected='a filter_kwargs dictionary (or None)', found=T.brief(fk, 120))
+                continue
+            given = dict(dict(fek[1]).get('filter_kwargs', ('dict', ()))[1]) if fek != NONE else {}
+            lens = {k: v for k, v in keys.items() if k in ('n_cycles', 'n_seconds')}
+            glens = {k: v for k, v in given.items() if k in ('n_cycles', 'n_seconds')}
+            ok = lens == glens or (not glens and lens in ({}, {'n_cycles': C(3)}))
+            if ok:
+                rep.ok('OPT-FORWARD', inst, evs[0]['where'] or site, found=f'filter length keys at find_extrema: {sorted(lens) or "none (three-cycle default)"}')
+            else:
+                rep.violation('OPT-FORWARD', inst, evs[0]['where'] or site, expected=f'filter length keys {({k: T.show(v) for k, v in glens.items()}) or "none / the documented default n_cycles=3"}',
+                              found={k: T.show(v) for k, v in lens.items()})
 
 
 def opt_excl(rep, model):
